@@ -13,9 +13,57 @@ def main(tier, seed, replay=None):
 
         chan_model.correspondence(ck, ok, "C03", tier, replay)
         chan_model.link_correspondence(ck, ok, tier, replay)
+        if not replay:
+            after_exit(ck, tier)
     except ImportError:
         pass
     return ck.finish(rule='generated send/close histories: worker or initiator sends k items then closes explicitly, ends its remote_exec, or drops its last reference, with one or two blocked receivers and waitclose callers on the other side; random/PCT schedules with line-level preemption. distinct = distinct (program, schedule prefix).')
+
+
+def after_exit(ck, tier):
+    """real gateways: what a channel that closed REGULARLY says once the whole gateway has gone (waitclose still just returns), and an
+    explicit close() racing with gateway.exit() (it completes locally, isclosed is true, nothing is raised)"""
+    import execnet
+    from props import xport as X
+
+    for em in ("thread", "main_thread_only"):
+        try:
+            gw = execnet.makegateway("popen//execmodel=%s" % em)
+            ch = gw.remote_exec("channel.send(1)")
+            ch.receive(10)
+            ch.waitclose(10)
+            gw.exit()
+            X.with_timeout(lambda: gw.join(10), 20)
+            res = []
+            for _ in range(2):
+                try:
+                    ch.waitclose(1)
+                    res.append("returns")
+                except Exception as e:  # noqa
+                    res.append(type(e).__name__)
+            ck.case(("after-exit-waitclose", em), nontrivial=True)
+            ck.count("after_exit_probes")
+            if res != ["returns", "returns"]:
+                ck.fail("waitclose-on-a-regularly-closed-channel-raises-after-gateway-exit", {"execmodel": em, "waitclose": res})
+        except Exception as e:  # noqa
+            ck.broke("correspondence", "after-exit-probe-failed", repr(e)[:200])
+    bad = None
+    for i in range(15 if tier == "quick" else 150):
+        gw = execnet.makegateway("popen")
+        ch2 = gw.remote_exec("channel.receive()")
+        gw.exit()
+        try:
+            ch2.close()
+            if not ch2.isclosed():
+                bad = ("isclosed-false", i)
+        except Exception as e:  # noqa
+            bad = (type(e).__name__, str(e)[:60], "isclosed=%s" % ch2.isclosed(), i)
+        X.with_timeout(lambda: gw.join(10), 20)
+        if bad:
+            break
+    ck.case(("close-racing-exit",), nontrivial=True)
+    if bad:
+        ck.fail("closing-side-state-wrong:close-racing-gateway-exit", {"observed": list(map(str, bad))})
 
 
 EXTRA = None
